@@ -1,2 +1,6 @@
 import TlxVerif.Props.C11
-#print axioms TlxVerif.C11.sem_init_value
+#print axioms TlxVerif.C11.sem_conservation
+#print axioms TlxVerif.C11.sem_take_only_when_covered
+#print axioms TlxVerif.C11.sem_wait_return
+#print axioms TlxVerif.C11.sem_no_lost_wakeup
+#print axioms TlxVerif.C11.sem_at_rest_no_stranded_waiter
